@@ -377,6 +377,100 @@ fn run_refused_calls(cx: &mut CaseCx, case: &Value) {
   cx.outcome("refused calls leave nothing");
 }
 
+
+/// A relabelling adversary on the exported post-puncture state: every retained seed is placed, alone, at every
+/// node on the path to a punctured input (a crafted key state handed to a fresh server); if the server then
+/// evaluates the punctured input to its ORIGINAL value, the exported state still contains a seed from which
+/// the punctured value can be recomputed - whatever label it is stored under. Independent of any replica of
+/// the tree PRG: the server's own evaluation is the oracle.
+fn run_relabelling(cx: &mut CaseCx, case: &Value) {
+  let c = match setup(cx, 1) {
+    Some(c) => c,
+    None => return,
+  };
+  // printer self-validation on the honest export
+  let honest = match export_bytes(&c.initial) {
+    Ok(b) => b,
+    Err(_) => return,
+  };
+  if parse_export(&honest).map(|e| print_export(&e)) != Some(honest.clone()) {
+    cx.count("export_printer_unavailable", 1);
+    cx.note("the independent printer of the key-sync export does not reproduce an honest export (layout changed?): relabelling check skipped, never an alarm");
+    return;
+  }
+  // positive control of the forging technique: a seed of the UNPUNCTURED state, alone at its own label, must
+  // make a fresh server evaluate the inputs below it to their original values
+  {
+    let e0 = parse_export(&honest).unwrap();
+    let ok = e0.prefixes.iter().all(|(label, seed)| {
+      let forged = Export { oprf_key: e0.oprf_key, base_pk: e0.base_pk, md_pks: e0.md_pks.clone(), prgs: e0.prgs.clone(), prefixes: vec![(label.clone(), seed.clone())], punctured: vec![], ggm_offset: 0 };
+      let mut fresh = pp::Server::new(vec![9]).expect("server");
+      if import_into(&mut fresh, &print_export(&forged)).is_err() {
+        return false;
+      }
+      let x = Node::from_bools(label).map(|n| n.leaves()[0]).unwrap_or(0);
+      let mut out = [0u8; 32];
+      use ppoprf::PPRF;
+      fresh.verif_pprf().eval(&[x], &mut out).is_ok() && Some(out) == c.baseline[x as usize]
+    });
+    if !ok {
+      cx.count("export_printer_unavailable", 1);
+      cx.note("a crafted single-node key state does not evaluate as expected on a fresh server (import validates more than the layout?): relabelling check skipped, never an alarm");
+      return;
+    }
+  }
+  cx.count("export_printer_validated", 1);
+  let lo = case["lo"].as_u64().unwrap() as u8;
+  for a in lo..=lo.saturating_add(15) {
+    // histories: [a], [a, a^0x80], [a ^ 0x40, a], [a.wrapping_add(1), a]
+    for hist in [vec![a], vec![a, a ^ 0x80], vec![a ^ 0x40, a], vec![a.wrapping_add(1), a]] {
+      let mut s = c.initial.clone();
+      for &x in &hist {
+        let _ = s.puncture(x);
+      }
+      let exp = match export_bytes(&s).ok().and_then(|b| parse_export(&b)) {
+        Some(e) => e,
+        None => continue,
+      };
+      cx.nontrivial(fnv(&hist));
+      for &x in &hist {
+        let want = match c.baseline[x as usize] {
+          Some(v) => v,
+          None => continue,
+        };
+        for (label, seed) in &exp.prefixes {
+          for target in path_nodes(x) {
+            let forged = Export { oprf_key: exp.oprf_key, base_pk: exp.base_pk, md_pks: exp.md_pks.clone(), prgs: exp.prgs.clone(), prefixes: vec![(target.to_bools(), seed.clone())], punctured: vec![], ggm_offset: 0 };
+            let mut fresh = pp::Server::new(vec![9]).expect("server");
+            cx.eval();
+            if import_into(&mut fresh, &print_export(&forged)).is_err() {
+              cx.count("forged_states_refused", 1);
+              continue;
+            }
+            let mut out = [0u8; 32];
+            let got = guard(|| {
+              use ppoprf::PPRF;
+              fresh.verif_pprf().eval(&[x], &mut out).is_ok()
+            });
+            if got == Ok(true) && out == want {
+              cx.viol(
+                "C11/exported-seed-recomputes-punctured-value",
+                format!("after puncturing {:?}, the exported key state holds (under the label of depth {}) a seed that, placed at the depth-{} node on the path to the punctured input {}, evaluates it to its original value: the punctured value can still be recomputed from the post-puncture state", hist, label.len(), target.len, x),
+                json!({"punctured_in_order": hist, "input": x, "stored_under_label_depth": label.len(), "works_at_path_depth": target.len}),
+              );
+              return;
+            }
+            cx.count("relabelled_seeds_useless", 1);
+          }
+        }
+      }
+    }
+  }
+  cx.count("states", 64);
+  cx.count("transitions", 64);
+  cx.outcome("relabelling adversary fails");
+}
+
 pub fn spec() -> PropSpec {
   PropSpec {
     id: "C11",
@@ -407,6 +501,13 @@ pub fn spec() -> PropSpec {
         gen: |_| (0..16u64).map(|i| json!({"lo": i * 16})).collect(),
         run: run_refused_calls,
         min_counts: &[("refused_then_punctured", 5000)],
+      },
+      Check {
+        name: "relabelling-adversary",
+        rule: "for EVERY input a and the histories [a], [a, a^0x80], [a^0x40, a], [a+1, a]: each seed of the exported post-puncture state is placed alone at each of the 8 nodes on the path to each punctured input (crafted key state, independent printer self-validated on an honest export) and imported into a fresh server: the server must not evaluate the punctured input to its original value (a seed that recomputes a punctured value survives under whatever label)",
+        gen: |_| (0..16u64).map(|i| json!({"lo": i * 16})).collect(),
+        run: run_relabelling,
+        min_counts: &[("relabelled_seeds_useless", 20_000), ("export_printer_validated", 16)],
       },
       Check {
         name: "singles-and-siblings",
